@@ -163,6 +163,59 @@ def _cardinal_eval0(gridSrc, d, targets):
     return np.array([C.b2f(int(o)) for o in outs]).reshape(len(targets), nint)
 
 
+def _lagrange(nodes, x):
+    """L[i, a] = a-th Lagrange cardinal function of `nodes` at x[i] (plain numpy, any node positions)."""
+    out = np.ones((len(x), len(nodes)))
+    for a, m in itertools.permutations(range(len(nodes)), 2):
+        out[:, a] *= (x - nodes[m]) / (nodes[a] - nodes[m])
+    return out
+
+
+def _tbar(x, n, d):
+    """restricted Chebyshev polynomials at x: pz orders 2..n+1 (minus 1 or x), pp orders 1..n (minus 1)."""
+    k = np.arange(2, n + 2) if d == "pz" else np.arange(1, n + 1)
+    t = np.cos(k[None, :] * np.arccos(np.clip(x, -1.0, 1.0))[:, None])
+    return t - (np.where(k[None, :] % 2 == 0, 1.0, x[:, None]) if d == "pz" else 1.0)
+
+
+def _uniform_spacing(rep, tier, base, r):
+    """interpolation on grids with spacing='Uniform' (admitted by Grid): the stored numbers live on the UNIFORM nodes of the stored
+    size (that is where an equal-size load puts them), so the loaded smaller array must act on every low-order distribution like
+    the stored operator evaluated (Lagrange on the stored nodes, node positions taken from the grids) at the new uniform points.
+    Oracle is numpy only; the code's Gauss-Lobatto path is covered above."""
+    from WallGo.grid import Grid
+    from WallGo.collisionArray import CollisionArray
+    combos = [(7, 5), (9, 5), (5, 3)] if tier == "quick" else [(7, 5), (9, 5), (9, 7), (5, 3), (11, 7)]
+    for (Ns, Nt), bst, breq, npart in itertools.product(combos, ("Cardinal", "Chebyshev"), ("Cardinal", "Chebyshev"), (1, 2)):
+        names = ["A", "B"][:npart]
+        rngnp = np.random.default_rng(r.randint(0, 2 ** 31))
+        blocks = {(a, b): rngnp.normal(size=(Ns - 1,) * 4) for a in names for b in names}
+        d = CC.write_dir(base / "uni", names, Ns, bst, blocks)
+        gs, gt = Grid(4, Ns, 1.0, 1.0, "Uniform"), Grid(4, Nt, 1.0, 1.0, "Uniform")
+        real = CollisionArray.newFromDirectory(d, gt, breq, [CC.mkpart(n) for n in names])
+        n = Nt - 1
+        Lz = _lagrange(np.concatenate(([-1.0], gs.rzValues, [1.0])), gt.rzValues)[:, 1:-1]     # operator output vanishes at rz = -1, 1
+        Lp = _lagrange(np.concatenate((gs.rpValues, [1.0])), gt.rpValues)[:, :-1]               # ... and at rp = 1
+        worst = 0.0
+        for i, a in enumerate(names):
+            for j, b in enumerate(names):
+                Cst = blocks[(a, b)]
+                # columns = the low-order distributions Tbar_J(pz) Tbar_K(pp), J, K < n, in the stored representation
+                Clow = Cst[:, :, :n, :n] if bst == "Chebyshev" else np.einsum("pqjk,jJ,kK->pqJK", Cst, _tbar(gs.rzValues, n, "pz"), _tbar(gs.rpValues, n, "pp"))
+                want = np.einsum("Pp,Qq,pqJK->PQJK", Lz, Lp, Clow)
+                got = real[i, :, :, j, :, :]
+                if breq == "Cardinal":                    # cardinal coefficients of a distribution = its values at the new nodes
+                    got = np.einsum("PQjk,jJ,kK->PQJK", got, _tbar(gt.rzValues, n, "pz"), _tbar(gt.rpValues, n, "pp"))
+                worst = max(worst, float(np.max(np.abs(got - want)) / (np.max(np.abs(want)) + 1e-300)))
+        rep.case(key=("interp-uniform", Ns, Nt, bst, breq, npart))
+        rep.count("uniform-spacing interpolation comparisons")
+        if worst > 1e-8:
+            rep.violation("on a grid with spacing='Uniform' the array interpolated to a smaller grid does not act on low-order distributions "
+                          "like the stored operator (on the uniform nodes of the stored size) evaluated at the new grid points",
+                          {"spacing": "Uniform", "M": 4, "stored_N": Ns, "target_N": Nt, "stored_basis": bst, "requested_basis": breq,
+                           "particles": npart, "max_rel_diff": worst}, finding_key="C14:interp-uniform-spacing")
+
+
 def _numeric(rep, tier, base, r):
     """basis change and interpolation of the real class vs the matrices of Model.Poly (E * C * T ... )."""
     from WallGo.grid import Grid
@@ -198,6 +251,7 @@ def _numeric(rep, tier, base, r):
             rep.violation("real interpolation/basis change differs from E*C*T*P assembled from the model's matrices",
                           {"stored_N": Ns, "target_N": Nt, "stored_basis": bst, "requested_basis": breq, "particles": npart,
                            "max_rel_diff": worst}, finding_key="C14:interpolation-multi-particle" if npart > 1 else "C14:interp-numeric")
+    _uniform_spacing(rep, tier, base, r)
     # interpolation must not disturb the source array (it may go on being used)
     for bst in ("Cardinal", "Chebyshev"):
         rngnp = np.random.default_rng(r.randint(0, 2 ** 31))
